@@ -110,10 +110,15 @@ def write_nifti_image(data: Tensor, grid: Grid, path: PathUri) -> None:
         data = data.unsqueeze(0)
     if data.ndim != grid.ndim + 1:
         raise ValueError("write_image() data.ndim must be equal to grid.ndim or grid.ndim + 1")
+    if data.shape[0] == 1:
+        data = data.squeeze(0)
     # Reverse order of axes
     dataobj = np.transpose(data.numpy(), axes=tuple(reversed(range(data.ndim))))
+    # Homogeneous transformation from voxel indices to world coordinates
+    affine = np.eye(4, dtype=np.float64)
+    affine[: grid.ndim, : grid.ndim] = grid.affine().cpu().numpy()
+    affine[: grid.ndim, 3] = grid.origin().cpu().numpy()
     # Convert to NIfTI RAS convention
-    affine = grid.affine().cpu().numpy()
     affine[:2] *= -1
     with StorageObject.from_path(path) as obj:
         local_path = unlink_or_mkdir(obj.path)
